@@ -17,7 +17,10 @@ grandchild (spawn) work on the object at every level.  Thorough tier: real proce
 Drops: objects over one wrapper may be dropped in any order (mode mem); handles may be dropped in the process holding them
 (mode hops, Model/SharedHopDrop.v): the owner dropping its original while a receiver lives recycles storage in use -- a
 candidate defect reported as C15:storage-recycled-while-receiver-live (also on a real spawn child, mode orphan).  Lock
-arguments of either truth value: `if lock:` replaces a falsy lock object (C15:falsy-lock-replaced-by-private-lock)."""
+arguments of either truth value: `if lock:` replaces a falsy lock object (C15:falsy-lock-replaced-by-private-lock).
+Forks: G_semfork reads where SemLock.__init__ registers the after-fork reset of a lock object; Model/SharedFork.v has the fork of
+an updater by the process holding the lock as an operation; mode forklock starts real updater processes from inside
+`with obj.get_lock():` under the fork start method (value unchanged under the held lock, no lost update)."""
 import ctypes
 import json
 import mmap
@@ -35,6 +38,17 @@ MANIFEST = dict(
          'rebuilt aliases) -- also in recycled dirty storage; single-step forms (initialised, creation/store isolated, store read back). '
          'Atomicity: for any number of threads, iterations and any interleaving `with v.get_lock(): v.value += 1` loses no update, is '
          'mutually exclusive and cannot deadlock; without the outer lock an update can be lost (witness). '
+         'Atomicity ACROSS FORKS (Model/SharedFork.v): the lock as it is -- one kernel semaphore shared by all processes plus a per-process '
+         'copy of the lock object with its ownership count, operated by the C17 primitive (sem_acq/sem_rel) -- and FORK as an operation: any '
+         'process forks, at any point, also from inside its `with v.get_lock():` block, an updater; the child\'s copy of the lock object is '
+         'the parent\'s unless the after-fork hook of SemLock.__init__ resets it. Where that hook is registered (which `if` tests enclose it) '
+         'is read from synchronize.py on every run (G_semfork, fail-closed) and proved to cover every lock created on POSIX, named or not; '
+         'for that reset and ANY history of steps and forks: no lost update (the value is the initial value plus the number of increments all '
+         'updaters, initial and forked, were started with), at most one process inside, while one is inside no other process can step (the '
+         'forked child waits for the parent\'s release; the value does not change under a held lock), no deadlock; refuted without the reset '
+         '(computed history: two inside, value changes under the held lock, two increments end at 1). Real scenarios (fork start method, '
+         'quick tier): `with lock: start updater processes; read again; store old+1` for Value, Array, an explicit RLock, a RawValue under a '
+         'plain RLock / Lock, judged by monitors (signatures C15:value-changed-under-held-lock, C15:lock-held-by-two-processes, C15:lost-update). '
          'Hand-overs (Model/SharedHop.v): per-process ForkingPickler registries; for every history of spawning, allocating, sending any '
          'handle from whatever process holds it, and storing: no handle is ever a by-value copy, every handle can be handed on again, a '
          'rebuilt handle is the same block of the same owner\'s arena, handles of one allocation have the same store and a store through '
@@ -1266,8 +1280,9 @@ def run_phases(res, phases):
 
 
 def run(res):
-    res.proof_step('Props/C15.v', extra_targets=['Model/SharedMem.vo', 'Model/SharedHop.vo', 'Model/SharedShadow.vo', 'Model/SharedHopDrop.vo'],
-                   kernels_needed=['G_sharedmem'])
+    res.proof_step('Props/C15.v', extra_targets=['Model/SharedMem.vo', 'Model/SharedHop.vo', 'Model/SharedShadow.vo', 'Model/SharedHopDrop.vo',
+                                                 'Model/SharedFork.vo'],
+                   kernels_needed=['G_sharedmem', 'G_semfork'])
     n = 110 if res.tier == 'quick' else 3000
     if res.broken:
         n = max(n, 1500)
@@ -1306,6 +1321,9 @@ def run(res):
         'a process started in the style of spawn/forkserver has the ForkingPickler registry of a fresh interpreter (emulated by the driver: the '
         'registry as it is after importing billiard, snapshot taken at driver start); validated by real spawn chains',
         'all updaters use the same lock object/semaphore: checked on the real wrappers (lock identity, pickle round trip), the atomicity theorem has one lock',
+        'fork: the child of os.fork() has a copy of every lock object of the forking process (count/last_tid included) and its only thread is the '
+        'forking thread; kernel semaphores are shared, not copied; SemLock._after_fork() sets count = 0; register_after_fork/_run_after_forkers are '
+        'multiprocessing.util\'s (trusted like the primitive); updater processes have one thread each in the model (threads inside a forked child: real scenarios of C17 only)',
     ]
 
 
